@@ -451,10 +451,14 @@ pub fn e_record<const N: usize, S: Src>(src: &mut S) {
     } else {
         (st.record_error(ParseError { position: new_pos, specifics: spec(new_k) }).report_farthest_error(), new_pos)
     };
+    // C10 asks for the furthest offset and for a detail naming SOME attempt that failed there; which of two
+    // attempts at the same offset is named is not part of the property (the tree's "newer wins" is one valid choice)
     if has_old && old_pos > np {
-        vcheck!(src, e.position == old_pos && spec_id(&e.specifics) == old_k, "furthest error is kept");
+        vcheck!(src, e.position == old_pos && spec_id(&e.specifics) == old_k, "C10: the furthest error is kept");
+    } else if has_old && old_pos == np {
+        vcheck!(src, e.position == np && (spec_id(&e.specifics) == new_k || spec_id(&e.specifics) == old_k), "C10: on a tie the detail names one of the attempts that failed at that offset");
     } else {
-        vcheck!(src, e.position == np && spec_id(&e.specifics) == new_k, "newer error at an equal or larger offset replaces");
+        vcheck!(src, e.position == np && spec_id(&e.specifics) == new_k, "C10: an error at a larger offset replaces");
     }
 }
 
@@ -537,9 +541,9 @@ pub fn e_choice<const N: usize, S: Src>(src: &mut S) {
             if epos[1] > mx { mx = epos[1]; }
             if epos[2] > mx { mx = epos[2]; }
             vcheck!(src, e.position == mx, "failed choice reports the furthest failure of its alternatives");
-            // ties: the newest (right-most) alternative at that offset
-            let w = if epos[2] == mx { 2 } else if epos[1] == mx { 1 } else { 0 };
-            vcheck!(src, spec_id(&e.specifics) == w as u8, "detail names an attempt that failed at that offset");
+            // ties: any alternative that failed at that offset may be named
+            let id = spec_id(&e.specifics) as usize;
+            vcheck!(src, id < 3 && epos[id] == mx, "C10: the detail names an attempt that failed at the furthest offset");
         }
         _ => vcheck!(src, false, "choice result disagrees with first-match-wins"),
     }
